@@ -238,6 +238,50 @@ func wrapFN(fn driver.RenderFN) driver.RenderFN {
 	}
 }
 
+// misc exercises the less travelled public entry points on one subject.
+func misc(op *Op, e *expr.Expression, canon func(func() string) string) string {
+	var sb strings.Builder
+	part := func(name string, f func() string) {
+		sb.WriteString(name)
+		sb.WriteByte('=')
+		sb.WriteString(strconv.Quote(guarded(f)))
+		sb.WriteByte(';')
+	}
+	part("plusv", func() string { return fmt.Sprintf("%+v", e) })
+	part("q", func() string { return fmt.Sprintf("%q", e) })
+	part("print", func() string { return fmt.Sprint(e, " ", e) })
+	if e != nil {
+		part("op", func() string { return fmt.Sprintf("%d|%v|%s|%q", e.Op, e.Op, e.Op, e.Op) })
+		part("leftv", func() string { return fmt.Sprintf("%v|%+v|%#v|%q", e.Left, e.Left, e.Left, e.Left) })
+		part("valleft", func() string { return errText(expr.Validate(e.Left)) })
+		part("valright", func() string { return errText(expr.Validate(e.Right)) })
+		part("valcopy", func() string { cp := *e; return errText(expr.Validate(&cp)) })
+		part("isexpr", func() string { return strconv.FormatBool(expr.IsExpr(e.Left)) + strconv.FormatBool(expr.IsExpr(e)) })
+	}
+	part("opstr", func() string {
+		return expr.Operator(99).String() + "|" + expr.Operator(-1).String() + "|" + expr.Undefined.String() + "|" + expr.List.String()
+	})
+	part("valother", func() string {
+		return errText(expr.Validate(42)) + errText(expr.Validate("x")) + errText(expr.Validate(nil)) + errText(expr.Validate((*expr.Expression)(nil)))
+	})
+	part("column", func() string { c := expr.Column("my col"); return fmt.Sprintf("%v|%s|%#v|%q", c, c, c, c) })
+	// decoding into a value that already holds a tree (the target is private to this operation)
+	part("unmarshal-into", func() string {
+		var target expr.Expression
+		if e != nil {
+			target = *cloneExpr(e)
+		}
+		err := json.Unmarshal(docBytes(op.Query), &target)
+		if err != nil {
+			return errText(err)
+		}
+		var s string
+		canon(func() string { s = canonFull(&target); return "" })
+		return s
+	})
+	return sb.String()
+}
+
 // editPrint: the tree is private to this operation, so the caller may legally edit it
 // between two uses. Whatever the library remembered about the tree from the first
 // use must not leak into the second: printing/rendering the edited tree has to give
@@ -405,6 +449,8 @@ func doCall(op *Op, e *expr.Expression, canon func(func() string) string) (strin
 	switch op.Kind {
 	case KEditPrint:
 		return editPrint(e, canon), nil
+	case KMisc:
+		return misc(op, e, canon), nil
 	case KParse:
 		var x *expr.Expression
 		var err error
